@@ -167,10 +167,29 @@ def run(chk, facts, tier, only=None, floor=60):
                        f"continuation bit 0x80 and the sign bit 0x40", ok_detail=str(sorted(hex(m) for m in masks)))
         chk.floor("kernels with byte masks", n, 7 if floor >= 60 else 5)
 
+    def r5():
+        # the value serializer writes 128-bit host integers only through the two encoders above: a byte pushed on the side is a second,
+        # unchecked encoder
+        c_ = facts.crate("candid")
+        from facts import walk as _w, callee as _cal
+        for nm_, enc in (("serialize_i128", "encode_int"), ("serialize_u128", "encode_nat")):
+            hs = [hh for k_, hh in c_.hir.items() if re.search(r"ValueSerializer as candid::types::Serializer>::%s$" % nm_, k_)]
+            if len(hs) != 1:
+                raise AnchorMissing(f"ValueSerializer::{nm_} not found")
+            h_ = hs[0]
+            chk.analysed(h_["key"])
+            calls_ = [(_cal(x) or x.get("m") or "") for x in _w(h_["body"]) if x.get("k") in ("call", "mcall")]
+            other = [x for x in calls_ if not x.endswith("leb128::" + enc) and not re.search(r"(Try::branch|FromResidual|::from$|::into$)", x)]
+            chk.expect(any(x.endswith("leb128::" + enc) for x in calls_) and not other, f"writer:{nm_}:delegates",
+                       f"ValueSerializer::{nm_} must hand the value to leb128::{enc} and do nothing else; it also calls {other}: bytes written "
+                       f"beside the encoder are not covered by the encoder's analysis", where=f"{h_['span']['file']}:{h_['span']['lo']}",
+                       ok_detail=f"single call of leb128::{enc}")
+
     sfx = getattr(chk, "cfg_suffix", "")
     for rid, desc, fn in (("C09.R1", "no trap, no silent loss of significant bits, no dead range rejection in any (S)LEB128 kernel", r1),
                           ("C09.R2", "a truncated number is an error (read results are propagated)", r2),
-                          ("C09.R3", "byte masks are the LEB128 masks 0x7f / 0x80 / 0x40", r3)):
+                          ("C09.R3", "byte masks are the LEB128 masks 0x7f / 0x80 / 0x40", r3),
+                          ("C09.R5", "128-bit host integers are written only through the analysed encoders", r5)):
         if only and only != rid:
             continue
         chk.run_rule(rid + sfx, desc, fn)
